@@ -679,69 +679,53 @@ NULLCOL_IDIOMS = {
 def check_remove_null_cols(chk, rule):
     """the index set kept by remove_null_cols is read from the structure of the first matrix (accepted idioms
     enumerated above), never from values (sums cancel, tolerances depend on units); every matrix is reduced by
-    that same set in rows and columns and the set is returned last"""
+    that same set in rows and columns - each one built from its own argument - and the set is returned last.
+    Decided on flow-sensitive value sets (vcheck/symval.py): temporaries, helper functions, the if/else that skips
+    the CSR conversion and the container idiom (overwrite args[i] / build a new list) do not matter."""
+    from .symval import Flow, strip_conversions
     m = module('compmech/sparse.py')
     fn = m.function('remove_null_cols')
-    defs = local_defs(fn)
-    ud = [v for v in defs.get('used_cols', []) if v is not None]
-    got = None
-    ok = False
-    if len(ud) == 1:
-        got = norm(ud[0])
-        if got == 'np.unique(cols)':
-            # rows, cols = m.nonzero()
-            for n in ast.walk(fn):
-                if isinstance(n, ast.Assign) and isinstance(n.targets[0], ast.Tuple) and [norm(e) for e in n.targets[0].elts][1:] == ['cols'] and norm(n.value) == 'm.nonzero()':
-                    got = 'np.unique(m.nonzero()[1])'
-        ok = got in NULLCOL_IDIOMS
-    chk.ob(rule, ok, 'compmech/sparse.py', 'remove_null_cols', 'active amplitudes = columns of the first matrix with stored entries',
-           expected=sorted(NULLCOL_IDIOMS), got=got or [norm(v) for v in ud],
-           detail='' if ok else 'an active set computed from values drops columns whose entries cancel or fall under a tolerance (and depends on the units of the matrix)',
-           sample='remove_null_cols: used_cols = %s' % got)
-    txt = norm(fn)
-    ok2 = 'm=m[used_cols,:]' in txt and 'm=m[:,used_cols]' in txt and 'args.append(used_cols)' in txt
-    chk.ob(rule, ok2, 'compmech/sparse.py', 'remove_null_cols', 'same index set for rows and columns of every matrix, returned last')
-    # every reduced matrix derives from its own argument: inside the loop over the arguments, whatever is
-    # sliced and stored back at position i is built from the loop variable only (and the index set)
-    loops = [n for n in ast.walk(fn) if isinstance(n, ast.For) and 'args' in norm(n.iter)]
-    ok3, got3 = False, 'no loop over the arguments'
-    if loops:
-        lp = loops[-1]
-        tv = [e.id for e in ast.walk(lp.target) if isinstance(e, ast.Name)]
-        it = norm(lp.iter)
-        if it.startswith('enumerate(') and len(tv) == 2:
-            idx, item = tv
-        elif it.startswith('range(') and len(tv) == 1:
-            idx, item = tv[0], None
+    fl = Flow(fn)
+    fl.run()
+    loops = [n for n in ast.walk(fn) if isinstance(n, ast.For)]
+    inloop = {id(x) for lp in loops for x in ast.walk(lp)}
+    # element values: what is stored at position i / appended inside the loop over the arguments
+    elems, containers = set(), set()
+    for tgt, vals, node in fl.stores:
+        if id(node) in inloop and tgt.endswith('[INDEX]'):
+            elems |= {strip_conversions(v).replace(' ', '') for v in vals}
+            containers.add(norm(node.value) if isinstance(node, ast.Subscript) else tgt)
+    for kind, recv, rvals, args, st in fl.events:
+        if id(st) in inloop and kind == 'append' and len(args) == 1:
+            elems |= {strip_conversions(v).replace(' ', '') for v in args[0]}
+            containers.add(recv.replace(' ', ''))
+    pat = re.compile(r'^ITEM\((args)\)\[(.+),:\]\[:,(.+)\]$')
+    pat2 = re.compile(r'^ITEM\((args)\)\[:,(.+)\]\[(.+),:\]$')
+    used = set()
+    ok3 = bool(elems)
+    for e in elems:
+        mt = pat.match(e) or pat2.match(e)
+        if not mt or mt.group(2) != mt.group(3):
+            ok3 = False
         else:
-            idx, item = None, (tv[-1] if tv else None)
-        stored = [n for n in ast.walk(lp) if isinstance(n, ast.Assign) and isinstance(n.targets[0], ast.Subscript) and norm(n.targets[0].value) == 'args']
-        foreign = []
-        work = {norm(st.value) for st in stored}
-        seen = set()
-        while work:
-            w = work.pop()
-            if w in seen:
-                continue
-            seen.add(w)
-            for a in ast.walk(lp):
-                if isinstance(a, ast.Assign) and len(a.targets) == 1 and norm(a.targets[0]) == w:
-                    for e in ast.walk(a.value):
-                        if isinstance(e, ast.Name) and isinstance(e.ctx, ast.Load):
-                            if e.id in (item, idx, 'used_cols', 'args', w) or e.id in ('csr_matrix', 'csc_matrix', 'coo_matrix', 'np'):
-                                continue
-                            if any(isinstance(b, ast.Assign) and norm(b.targets[0]) == e.id for b in ast.walk(lp)):
-                                work.add(e.id)
-                            else:
-                                foreign.append('%s = %s' % (w, norm(a.value)))
-                        if isinstance(e, ast.Subscript) and norm(e.value) == 'args' and norm(e.slice) != idx:
-                            foreign.append('%s = %s' % (w, norm(a.value)))
-        ok3 = bool(stored) and (item is not None or idx is not None) and not foreign and all(norm(st.targets[0].slice) == idx for st in stored)
-        got3 = foreign or [norm(st) for st in stored]
+            used.add(mt.group(2))
+    got = sorted(used)[0] if len(used) == 1 else None
+    idiom = got.replace('args[0]', 'm') if got else None
+    ok = idiom in NULLCOL_IDIOMS
+    chk.ob(rule, ok, 'compmech/sparse.py', 'remove_null_cols', 'active amplitudes = columns of the first matrix with stored entries',
+           expected=sorted(NULLCOL_IDIOMS), got=idiom or sorted(used) or sorted(elems)[:3],
+           detail='' if ok else 'an active set computed from values drops columns whose entries cancel or fall under a tolerance (and depends on the units of the matrix)',
+           sample='remove_null_cols: used_cols = %s' % idiom)
+    # the same set appended last to the container that is returned
+    tail = [(recv.replace(' ', ''), {strip_conversions(v).replace(' ', '') for v in args[0]}) for kind, recv, rvals, args, st in fl.events if id(st) not in inloop and kind == 'append' and len(args) == 1]
+    rets = [norm(r.value) for r in ast.walk(fn) if isinstance(r, ast.Return) and r.value is not None]
+    ok2 = len(used) == 1 and len(containers) == 1 and len(tail) == 1 and tail[0][0] in containers and tail[0][1] == used and rets == [tail[0][0]]
+    chk.ob(rule, ok2, 'compmech/sparse.py', 'remove_null_cols', 'same index set for rows and columns of every matrix, returned last',
+           got={'containers': sorted(containers), 'appended after the loop': [(r, sorted(v)) for r, v in tail], 'returned': rets})
     chk.ob(rule, ok3, 'compmech/sparse.py', 'remove_null_cols', 'each reduced matrix is built from its own argument', line=loops[-1].lineno if loops else 0,
-           expected='args[i] = (conversion of) the i-th argument sliced by used_cols', got=got3,
+           expected='element i = (conversion of) the i-th argument sliced by used_cols in rows and columns', got=sorted(elems)[:4],
            detail='' if ok3 else 'a matrix built from another argument silently replaces the mass / geometric matrix by the stiffness matrix',
-           sample='remove_null_cols: args[i] derives from arg only')
+           sample='remove_null_cols: element i = ITEM(args)[used,:][:,used]')
     return ok and ok2 and ok3
 
 
